@@ -5,6 +5,7 @@ import (
 
 	"github.com/stretchr/testify/mock"
 
+	corev1alpha1 "package-operator.run/apis/core/v1alpha1"
 	"package-operator.run/internal/adapters"
 	"package-operator.run/internal/testutil/adaptermocks"
 	"package-operator.run/internal/utils"
@@ -57,16 +58,22 @@ func (os *defaultObjectSetGetter) getActivelyReconciledObjects() []objectIdentif
 	return res
 }
 
+// getObjects returns the objects inlined into the phases of the ObjectSet.
+// Objects within ObjectSlices referenced by the phases are NOT included.
 func (os *defaultObjectSetGetter) getObjects() ([]objectIdentifier, error) {
 	objects := utils.GetObjectsFromPhases(os.objectSet.GetPhases())
+	return objectIdentifiers(objects, os.objectSet.ClientObject().GetNamespace()), nil
+}
+
+// objectIdentifiers returns the identifiers of the given objects,
+// objects without namespace default to the given namespace.
+func objectIdentifiers(objects []corev1alpha1.ObjectSetObject, defaultNamespace string) []objectIdentifier {
 	result := make([]objectIdentifier, len(objects))
 	for i := range objects {
 		unstructuredObj := objects[i].Object
-		var objNamespace string
-		if len(unstructuredObj.GetNamespace()) == 0 {
-			objNamespace = os.objectSet.ClientObject().GetNamespace()
-		} else {
-			objNamespace = unstructuredObj.GetNamespace()
+		objNamespace := unstructuredObj.GetNamespace()
+		if len(objNamespace) == 0 {
+			objNamespace = defaultNamespace
 		}
 		result[i] = objectSetObjectIdentifier{
 			name:      unstructuredObj.GetName(),
@@ -75,7 +82,7 @@ func (os *defaultObjectSetGetter) getObjects() ([]objectIdentifier, error) {
 			kind:      unstructuredObj.GroupVersionKind().Kind,
 		}
 	}
-	return result, nil
+	return result
 }
 
 type objectSetGetterMock struct {
